@@ -116,6 +116,7 @@ class Ctx:
     def violation(self, monitor, features=None, detail=None, case=None):
         """Record a violated observation.  features: structural facts used by the known-findings classifier."""
         self.counters["violation:" + monitor] += 1
+        self.counters["vfeat:%s %s" % (monitor, json.dumps(jsonable(features or {}), sort_keys=True))] += 1
         probe = jsonable({"property": self.prop, "monitor": monitor, "features": features or {}})
         for k in self._known:
             if matches(k, probe):
@@ -439,7 +440,8 @@ def finish(mod, pid, tier, seed, plan, results, dead, wall, extra=None):
         "samples": samples if samples else [{"note": "no sample recorded"}],
         "cases": int(cases),
         "monitor_evaluations": {k[5:]: v for k, v in sorted(counters.items()) if k.startswith("eval:")},
-        "classes_observed": {k: v for k, v in sorted(counters.items()) if not k.startswith("eval:") and not k.startswith("violation:")},
+        "classes_observed": {k: v for k, v in sorted(counters.items()) if not k.startswith(("eval:", "violation:", "vfeat:", "known:"))},
+        "violations_by_features": {k[6:]: v for k, v in sorted(counters.items()) if k.startswith("vfeat:")},
         "margins_observed_over_tolerance": {k: float("%.3g" % v) for k, v in sorted(margins.items())},
         "inconclusive_cases": dict(incon),
         "violations_by_monitor": {k[10:]: v for k, v in sorted(counters.items()) if k.startswith("violation:")},
